@@ -194,7 +194,7 @@ func (t *tr) tupleAssignStateful(x *ast.AssignStmt, c *ast.CallExpr, tup *types.
 		call := t.expr(c)
 		k0, _ := classify(tup.At(0).Type())
 		def := map[kind]string{kBytes: "[]", kNat: "0", kInt: "0", kByte: "0", kBool: "false"}[k0]
-		tmp := t.define("opt_"+calleeName(c), "Option "+t.leanType(tup.At(0).Type()), call)
+		tmp := t.define("opt_"+calleeName(c), optOf(t.leanType(tup.At(0).Type())), call)
 		t.assignTupleComp(x.Lhs[0], tup.At(0).Type(), fmt.Sprintf("(%s).getD %s", tmp, def), s)
 		t.assignTupleComp(x.Lhs[1], nil, fmt.Sprintf("if (%s).isSome then 0 else 1", tmp), s)
 		return true
